@@ -3,7 +3,7 @@ GENERATED FILE -- DO NOT EDIT.  Written by tools/rust2lean_sm.py from the Rust s
 `./check` for the properties whose props/Cxx.py names it in PREBUILD; the committed copy is the output for
 the pinned tree.  State machines: a `&mut self` method is a pure function returning the new state and the
 result; the meaning of the scalar vocabulary is fixed in the prelude below.  The agreement with the
-hand-written models is proved in Lemmas/KernelsAgree/{Sequencer,Drawdown}.lean.
+hand-written models is proved in Lemmas/KernelsAgree/{Sequencer,Drawdown,PositionSM,Connectivity}.lean.
 
 Source items (file :: item, line, hash of the item's source text):
   barter-data/src/error.rs :: enum DataError  (line 9)  sha256[:16]=beea71dc43c7ca86
@@ -61,6 +61,10 @@ Source items (file :: item, line, hash of the item's source text):
   barter/src/engine/state/position.rs :: impl Position :: fn update_from_trade  (line 227)  sha256[:16]=0ad4868c706b48bf
   barter/src/engine/state/position.rs :: struct PositionManager  (line 15)  sha256[:16]=d9894f534e2235e0
   barter/src/engine/state/position.rs :: impl PositionManager :: fn update_from_trade  (line 32)  sha256[:16]=e0d62c34f28709b5
+  barter/src/engine/state/connectivity/mod.rs :: enum Health  (line 157)  sha256[:16]=a31a4548958bbea6
+  barter/src/engine/state/connectivity/mod.rs :: impl Default for Health :: fn default  (line 187)  sha256[:16]=839096c618d6e970
+  barter/src/engine/state/connectivity/mod.rs :: struct ConnectivityState  (line 171)  sha256[:16]=b2d75bbb2728b71f
+  barter/src/engine/state/connectivity/mod.rs :: impl ConnectivityState :: fn all_healthy  (line 181)  sha256[:16]=060a333c7dcc7b07
 -/
 namespace BarterModel.Generated.Machines
 
@@ -594,5 +598,27 @@ def PositionManager.update_from_trade {InstrumentKey : Type} [DecidableEq Instru
   | (current, closed) =>
     let self : PositionManager InstrumentKey := { self with current := current }
     (self, closed))
+
+/-! ## barter/src/engine/state/connectivity/mod.rs -/
+
+/-- generated from `enum Health` (barter/src/engine/state/connectivity/mod.rs:157) -/
+inductive Health where
+  | Healthy
+  | Reconnecting
+  deriving DecidableEq, Repr
+
+/-- generated from `impl Default for Health :: fn default` (barter/src/engine/state/connectivity/mod.rs:187) -/
+def Health.default  : Health :=
+  Health.Reconnecting
+
+/-- generated from `struct ConnectivityState` (barter/src/engine/state/connectivity/mod.rs:171) -/
+structure ConnectivityState where
+  market_data : Health
+  account : Health
+  deriving DecidableEq, Repr
+
+/-- generated from `impl ConnectivityState :: fn all_healthy` (barter/src/engine/state/connectivity/mod.rs:181) -/
+def ConnectivityState.all_healthy (self : ConnectivityState) : Bool :=
+  (decide ((self.market_data = Health.Healthy) ∧ (self.account = Health.Healthy)))
 
 end BarterModel.Generated.Machines
